@@ -130,3 +130,46 @@ func init() {
 		return Iface{T: types.NewPointer(t), V: &cell}
 	})
 }
+
+func init() {
+	// reflect.ValueOf(x).IsNil(): the only reflection idiom of qryn's planners (nil-ness of AST nodes).
+	// The Value carries the interface in its pointer word; every other reflect.Value method is unsupported.
+	reg("reflect.ValueOf", func(m *Machine, fr *frame, a []Value) Value {
+		var cell Value = a[0]
+		return Struct{(*Value)(nil), UPtr{P: &cell}, BV(64, 0)}
+	})
+	reg("(reflect.Value).IsValid", func(m *Machine, fr *frame, a []Value) Value {
+		iv := *(a[0].(Struct)[1].(UPtr).P)
+		return BoolT(iv.(Iface).T != nil)
+	})
+	reg("(reflect.Value).IsNil", func(m *Machine, fr *frame, a []Value) Value {
+		iv := (*(a[0].(Struct)[1].(UPtr).P)).(Iface)
+		if iv.T == nil {
+			panic(targetPanic{Iface{T: m.P.rtErr, V: CStr("reflect: call of reflect.Value.IsNil on zero Value")}})
+		}
+		switch v := iv.V.(type) {
+		case *Value:
+			return BoolT(v == nil)
+		case *Map:
+			return BoolT(v == nil)
+		case []Value:
+			return BoolT(v == nil)
+		case *Chan:
+			return BoolT(v == nil)
+		case *Native:
+			return BoolT(v == nil)
+		case Iface:
+			return BoolT(v.T == nil)
+		case UPtr:
+			return BoolT(v.P == nil && v.S == nil)
+		}
+		if isNilFunc(iv.V) {
+			return TTrue
+		}
+		switch iv.T.Underlying().(type) {
+		case *types.Signature:
+			return TFalse
+		}
+		panic(targetPanic{Iface{T: m.P.rtErr, V: CStr("reflect: call of reflect.Value.IsNil on " + iv.T.String() + " Value")}})
+	})
+}
